@@ -89,14 +89,16 @@ def ast_has_no_await():
     return True
 
 
-@harness(P, params=lambda tier: [dict(hash_name=h) for h in (["SHA512"] if tier == "quick" else HASHES)], max_steps=60000,
+@harness(P, params=lambda tier: [dict(hash_name=h, stripe=(tier == "quick")) for h in (["SHA512"] if tier == "quick" else HASHES)], max_steps=60000,
          bounds="step _get_key(l1, l2) from an arbitrary valid pre-state: root key loaded or not, stored envelope absent or at any (L1',L2') in [0,31]^2 with the keys of its own "
-         "position, requested (l1,l2) anywhere in [0,31]^2; one (root key id, SD, L0) triple plus a neighbour triple", outside="L0 values other than the listed one (dictionary key)",
+         "position, requested (l1,l2) anywhere in [0,31]^2 (quick tier: requested l2 restricted to {0,1,15,30,31} - the derivation that follows forks on every value; thorough: all); one (root key id, SD, L0) triple plus a neighbour triple", outside="L0 values other than the listed one (dictionary key)",
          must_reach=("result covers the request and is chain-correct", "no RPC needed when covering material exists", "invariant preserved", "neighbour triple untouched"))
-def get_step(c, hash_name):
+def get_step(c, hash_name, stripe):
     _setup(c, hash_name)
     cache, has_root, st, other = _pre_state(c, hash_name)
     l1, l2 = c.int("l1", 0, 31), c.int("l2", 0, 31)
+    if stripe:
+        c.assume(any_of([l2 == 0, l2 == 1, l2 == 15, l2 == 30, l2 == 31]))
     c.check(ast_has_no_await(), "cache methods are synchronous (no await)")
     r = c.call(cache._get_key, SD, RKID, L0, l1, l2)
     had_cover = st is not None and truth(covers(st.l1, st.l2, l1, l2))
